@@ -5,6 +5,7 @@ import DDV.Props.C01
 import DDV.Props.C02
 import DDV.Props.C03Gen
 import DDV.Gen.Emit
+import DDV.Extracted.Tables
 
 namespace DDV.Props.C06
 open DDV.Gen DDV.Bits
@@ -169,5 +170,24 @@ theorem accessor_name_uses_method_oracle (n : Names) (cfg : GlobalConfig) (all :
     ∃ m, getMethod n cfg all "new" (fuel + 1) (.register r) = .ok (m, []) ∧ m.name = n.method r.name := by
   unfold getMethod
   simp [hc, bind, Except.bind, pure, Except.pure]
+
+/-! ### The codec a getter / setter names (translator-tied: the arms of `get_read_function` /
+     `get_write_function`, re-extracted from the source on every run) -/
+
+/-- what the model (and every theorem above) takes the arm for `(bo, bito)` to be -/
+def codecRowOk (row : String × String × String × String × String) : Bool :=
+  let (which, bo, bito, fn, ord) := row
+  (ord == bo) &&
+  (fn == (if which == "read" then "load_" else "store_") ++ (if bito == "LSB0" then "lsb0" else "msb0")) &&
+  (bo == "LE" || bo == "BE") && (bito == "LSB0" || bito == "MSB0") && (which == "read" || which == "write")
+
+/-- Every arm of the two selection matches in the source names the load / store routine of its own
+    bit order, instantiated with its own byte order, and each of the eight combinations has exactly
+    one arm. -/
+theorem codec_selection_matches_declared_orders :
+    (∀ row ∈ DDV.Extracted.codecTable, codecRowOk row = true) ∧
+    (∀ which ∈ ["read", "write"], ∀ bo ∈ ["LE", "BE"], ∀ bito ∈ ["LSB0", "MSB0"],
+      (DDV.Extracted.codecTable.filter fun r => r.1 == which && r.2.1 == bo && r.2.2.1 == bito).length = 1) := by
+  decide
 
 end DDV.Props.C06
